@@ -549,7 +549,7 @@ func TestC20AgentLifecycle(t *testing.T) {
 	defer vt.Watch("TestC20AgentLifecycle", 120*time.Second)()
 	rec := vt.For("C20")
 	rec.Rule("real agent.Agent with a recording node and a scripted pool in virtual time; rules: start, two concurrent starts, start with failing connect, start with failing first keep-alive, stop (while running) with a concurrent Wait, advance (random and exact multiples of the interval), forced update, make the next loop keep-alive fail, change the configured interval while not running, enter Wait before the run it observes is started, keep-alives that take the pool up to half an interval to answer; interval in [1s,119s] or unset (60s); oracle (model): first start => one Connect + one immediate keep-alive; start while running => ErrAlreadyStarted and no pool call; of two concurrent starts exactly one succeeds; loop keep-alives arrive at exactly loopStart+k*interval and floor(T/interval) of them in any window (a second loop would double them); stop => Wait returns nil at the next quiescent point and nothing is sent afterwards; a failed start leaves nothing running; a failed keep-alive ends the loop and Wait returns that error; restart works; at the end no goroutine is alive; non-trivial = history with a double start, a failed start or a restart; distinct by interval + op sequence")
-	rapid.Check(t, func(rt *rapid.T) {
+	check(t, func(rt *rapid.T) {
 		rapid.SyncTest(rt, func(rt *rapid.T) { c20Case(rt, rec) })
 	})
 }
@@ -570,7 +570,7 @@ func TestC20CLI(t *testing.T) {
 	if err := os.WriteFile(keyFile, []byte(fmt.Sprintf("%x", crypto.FromECDSA(id.key))), 0o600); err != nil {
 		t.Fatal(err)
 	}
-	rapid.Check(t, func(rt *rapid.T) {
+	check(t, func(rt *rapid.T) {
 		var d time.Duration
 		switch rapid.IntRange(0, 3).Draw(rt, "class") {
 		case 0:
